@@ -27,6 +27,8 @@ import threading
 import time
 import logging
 
+from ..core.types import describe_error
+
 
 _logger = logging.getLogger(__name__)
 
@@ -254,7 +256,7 @@ class Lysosome:
                 self._total_digested += 1
 
             except Exception as e:
-                errors.append(f"Failed to digest {waste.waste_type.value}: {e}")
+                errors.append(f"Failed to digest {waste.waste_type.value}: {describe_error(e)}")
 
         # Store recycled materials
         self._recycling_bin.update(recycled)
@@ -355,7 +357,7 @@ class Lysosome:
             try:
                 content.cleanup()
             except Exception as e:
-                _logger.warning(f"Cleanup failed for {waste.waste_type.value}: {e}")
+                _logger.warning(f"Cleanup failed for {waste.waste_type.value}: {describe_error(e)}")
 
         return {}
 
@@ -388,7 +390,7 @@ class Lysosome:
                     digester(waste)
                     self._total_digested += 1
                 except Exception as e:
-                    _logger.warning(f"Emergency digest failed for item: {e}")
+                    _logger.warning(f"Emergency digest failed for item: {describe_error(e)}")
                     continue  # Continue processing other items
             self._queue = self._queue[items_to_process:]
 
